@@ -1124,6 +1124,143 @@ def run_derived(ctx, r):
     run_session(ctx, mir, "derived shape")
 
 
+def run_query_order(ctx, r):
+    """Query-order dependence of the derived (left-over) coolant: evaluate volumes, resize a sibling, then make the
+    FIRST geometry query an area / a volume / after clearCache - every order x (setTemperature | setDimension);
+    afterwards the coolant volume must be fresh, the components must fill the block, the assembly/block volume
+    relation must be what it was, and N x V must agree between component, block and assembly level."""
+    from armi.materials import material
+    from armi.reactor.components import DerivedShape
+    from armi.reactor.flags import Flags
+
+    core = r.core
+    rng = ctx.rng
+    cands = [a for a in core if any(isinstance(c, DerivedShape) for b in a for c in b)]
+    fuels = [a for a in cands if a.hasFlags(Flags.FUEL)]
+    pool = ([a for a in fuels if a.getSymmetryFactor() == 3.0][:1] + [a for a in fuels if a.getSymmetryFactor() == 1.0][:1]
+            + [a for a in cands if a.getSymmetryFactor() == 2.0][:1] + rng.sample(cands, ctx.pick(2, 10)))
+    orders = ["area-block-first", "area-coolant-first", "volume-first", "clearcache-first", "massfirst"]
+    edits = ["setTemperature", "setDimension"]
+    mir = Mirror()
+    mir.emit("new")
+    combos = [(o, e) for o in orders for e in edits]
+    for ai, a0 in enumerate(pool):
+        for (order, edit) in (combos if ctx.thorough or ai < 3 else rng.sample(combos, 4)):
+            with common.quiet():
+                a = copy.deepcopy(a0)
+            blocks = [b for b in a if any(isinstance(c, DerivedShape) for c in b)
+                      and any(type(c).__name__ == "Circle" and not isinstance(c.material, material.Fluid) for c in b)]
+            if not blocks:
+                ctx.count("query order: block without a resizable solid circle (skipped)")
+                continue
+            b = rng.choice(blocks)
+            cool = [c for c in b if isinstance(c, DerivedShape)][0]
+            solids = [c for c in b if c is not cool and not isinstance(c.material, material.Fluid)
+                      and type(c).__name__ == "Circle"]
+            if not solids:
+                ctx.count("query order: block without a resizable solid circle (skipped)")
+                continue
+            sib = rng.choice(solids)
+            case = {"stream": "query order", "assembly": a0.name, "block": b.name, "order": order, "edit": edit,
+                    "sibling": sib.name}
+            fail = lambda k, cl, o, e, case=case: ctx.fail(k, cl, case, observed=o, expected=e)  # noqa: E731
+            ctx.case(("query-order", order, edit, type(sib).__name__), nontrivial=True)
+            ctx.count(f"query order {order} x {edit}")
+            # (a) evaluate volumes once
+            EPOCH[0] += 1
+            h = float(b.getHeight())
+            v_b0, v_c0, v_a0 = float(b.getVolume()), float(cool.getVolume()), float(a.getVolume())
+            rel0 = v_a0 - sum(float(x.getVolume()) for x in a)
+            sibvol0 = sum(float(c.getVolume()) for c in b if c is not cool)
+            own0 = float(sib.getVolume())
+            # (b) resize the sibling
+            try:
+                with common.quiet():
+                    if edit == "setTemperature":
+                        sib.setTemperature(float(sib.temperatureInC) + rng.choice([60.0, 120.0, -35.0]))
+                    else:
+                        sib.setDimension("od", float(sib.getDimension("od", cold=True)) * rng.choice([1.015625, 0.984375]))
+            except RuntimeError:
+                ctx.count("query order: sibling material without expansion correlation (skipped)")
+                continue
+            EPOCH[0] += 1
+            # (c) the first geometry query afterwards
+            with common.quiet():
+                if order == "area-block-first":
+                    b.getArea()
+                elif order == "area-coolant-first":
+                    cool.getArea()
+                elif order == "volume-first":
+                    cool.getVolume()
+                elif order == "clearcache-first":
+                    b.clearCache()
+                    b.getArea()
+                else:
+                    b.getMass()
+            # (d) checks
+            try:
+                sib_after = [float(c.getArea()) * h for c in b if c is not cool]   # fresh areas of all siblings
+            except RuntimeError:
+                ctx.count("query order: sibling material without expansion correlation (skipped)")
+                continue
+            d_sibs = sum(sib_after) - sibvol0          # the resized sibling may push linked neighbours (gap, bond) too
+            sym = float(b.getSymmetryFactor())
+            amax = float(b.getMaxArea())
+            v_c, a_c = float(cool.getVolume()), float(cool.getArea())
+            if float(sib.getArea()) * h == own0:
+                ctx.count("query order: resize had no effect on the sibling")
+            if abs(d_sibs) > 1e-9 * amax * h and v_c == v_c0:
+                fail("derived-volume-stale", "the derived volume is recomputed after its siblings changed", v_c, v_c0 - d_sibs)
+            if not fclose(v_c, a_c * h):
+                fail("derived-volume-stale", "coolant volume == coolant area x height after a sibling was resized", v_c, a_c * h)
+            if not fclose(v_c, v_c0 - d_sibs, scale=amax * h * 1e-9):
+                fail("derived-shape-follows", "the derived volume changes by -(change of the siblings' areas) x height", v_c - v_c0,
+                     -d_sibs)
+            svol = sum(float(c.getVolume()) for c in b)
+            if not fclose(svol, float(b.getVolume()) * sym) or not fclose(svol, amax * h):
+                fail("derived-shape-closes-volume", "the components fill the block: sum of component volumes == block volume x "
+                     "symmetry factor == max area x height", svol, [float(b.getVolume()) * sym, amax * h])
+            sarea = sum(float(c.getArea()) for c in b)
+            if not fclose(sarea, amax) or not fclose(float(b.getArea()) * sym, amax):
+                fail("derived-shape-closes-area", "component areas sum to the block's max area", [sarea, float(b.getArea()) * sym], amax)
+            for c in b:
+                if type(c).__name__ in ("Circle", "Hexagon", "Helix", "DerivedShape") and not fclose(float(c.getVolume()), float(c.getArea()) * h):
+                    fail("component-volume-stale", "component volume == current area x height", float(c.getVolume()), float(c.getArea()) * h)
+            rel1 = float(a.getVolume()) - sum(float(x.getVolume()) for x in a)
+            if not fclose(rel1, rel0, scale=v_a0 * 1e-9):
+                fail("assembly-volume-relation-changed", "Assembly.getVolume - sum of block volumes is what it was before the resize",
+                     rel1, rel0)
+            nucs = pick_nucs(rng, b, 2)
+            for n in nucs:
+                nv_b = float(b.getNumberDensity(n)) * float(b.getVolume()) * sym
+                nv_c = sum(float(c.getNumberDensity(n)) * float(c.getVolume()) for c in b)
+                if not fclose(nv_b, nv_c, tol=1e-8):
+                    fail("atoms-additive-block", f"N x V of {n}: block == sum of components", nv_b, nv_c)
+                nv_a = float(a.getNumberDensity(n)) * sum(float(x.getVolume()) for x in a)
+                nv_bs = sum(float(x.getNumberDensity(n)) * float(x.getVolume()) for x in a)
+                if not fclose(nv_a, nv_bs, tol=1e-8):
+                    fail("atoms-additive-assembly", f"N x V of {n}: assembly == sum of blocks", nv_a, nv_bs)
+            additivity(b, fail, nucs)
+            # correspondence: the derived remainder from the FRESH sibling values, and the mirrored accounting
+            sibs = [c for c in b if c is not cool]
+            vals = [v_c, a_c]
+
+            def check(line, vals=vals, case=case, amax=amax):
+                if line in ("reject", "bad-op"):
+                    ctx.disagree("Compo.deriveVolumeAndArea vs DerivedShape after resize", case, line, vals)
+                    return
+                qs = [common.unrat(x) for x in common.parse_list(line)]
+                if any(not rel_close(v, q, scale=amax * 1e-6) for v, q in zip(vals, qs)):
+                    ctx.disagree("Compo.deriveVolumeAndArea vs DerivedShape after resize", case, [float(q) for q in qs], vals)
+
+            mir.emit(f"derived {rat(amax)} {rat(h)} {ratlist([float(c.getVolume()) for c in sibs])} "
+                     f"{ratlist([float(c.getArea()) for c in sibs])}", check)
+            paths = mir.load([a], extra_nucs=())
+            add_snap(ctx, mir, "query order: Model/Compo vs block after resize", case, b, paths[id(b)], nucs)
+            add_snap(ctx, mir, "query order: Model/Compo vs assembly after resize", case, a, paths[id(a)], nucs)
+    run_session(ctx, mir, "query order")
+
+
 def run_findings(ctx, r):
     """excluded points listed in findings.d/C02.txt: shown to still reproduce on the real code."""
     from armi.reactor.flags import Flags
@@ -1197,6 +1334,7 @@ def run(ctx):
         guarded(ctx, "void-and-refill", lambda: run_zero_refill(ctx, r))
         guarded(ctx, "generated", lambda: run_generated(ctx))
         guarded(ctx, "derived shape", lambda: run_derived(ctx, r))
+        guarded(ctx, "query order", lambda: run_query_order(ctx, r))
         guarded(ctx, "findings", lambda: run_findings(ctx, r))
     ctx.rule = ("reference third-core reactor with edge assemblies (symmetry factors 1, 2, 3): every assembly and the core "
                 "compared and checked for additivity; seeded edit sequences (9 edit kinds x 4 levels, values incl. 0.0, 1e-50, "
@@ -1204,7 +1342,8 @@ def run(ctx):
                 "script, and generated assemblies of 1-6 blocks built from real shape classes (Circle, Helix, Hexagon, "
                 "Rectangle, Triangle, HoledHexagon, Square, DerivedShape) x library materials, detached or at the centre of a "
                 "third-core grid; derived (left-over) shapes of the reference blocks, as loaded and after thermal expansion "
-                "of a neighbour; densityTools conversions on random compositions. distinct = object (read-only comparisons) / edit combination; "
+                "of a neighbour; query-order scripts (volumes evaluated, a sibling of the derived coolant resized by setTemperature "
+                "or setDimension, first query afterwards = block area / coolant area / volume / after clearCache / mass); densityTools conversions on random compositions. distinct = object (read-only comparisons) / edit combination; "
                 "each is a real API call compared with the model after the edit and judged by the oracle. For edits, "
                 "distinct counts the (level, edit kind, value class [zero / trace / value / absent nuclide / empty / identity / "
                 "shrink / grow], symmetry factor, object type, accepted-or-refused) combinations actually exercised; the "
